@@ -15,6 +15,9 @@ import Verif.Model.Common
     finalizeNames            acme.(*Order).Finalize from the fingerprint comparison down to the
                              template data (common name, SAN list, which default template)
     validate                 api.(*NewOrderRequest).Validate
+    trimIfWildcard, challengeTypes, newAuthorization, newOrderAuthzs
+                             api.NewOrder / newAuthorization / challengeTypes: the authorization
+                             stored for each identifier (prov.IsChallengeEnabled is an input)
 
   External calls are input fields:
     * net.ParseIP(identifier value) -> `Identifier.ip`, net.ParseIP(common name) -> `Csr.cnIp`
@@ -208,5 +211,48 @@ def validate (ids : List Identifier) : ValOut :=
       (i.typ = .pid && i.value = []) || i.typ = .other) then .malformed
   else if isWire ids then .unmodelled
   else .ok
+
+/-! ### api.NewOrder: one authorization per identifier -/
+
+inductive ChalType where
+  | http01 | dns01 | tlsalpn01 | deviceAttest01
+  deriving Repr, DecidableEq
+
+/-- api.trimIfWildcard -/
+def isWildcard (v : Str) : Bool := Str.hasPrefix (s "*.") v
+def trimIfWildcard (v : Str) : Str := if isWildcard v then v.drop 2 else v
+
+/-- api.challengeTypes (Wire types aside) -/
+def challengeTypes (t : IdType) (wildcard : Bool) : List ChalType :=
+  match t with
+  | .ip => [.http01, .tlsalpn01]
+  | .dns => if wildcard then [.dns01] else [.dns01, .http01, .tlsalpn01]
+  | .pid => [.deviceAttest01]
+  | _ => []
+
+/-- what api.NewOrder / newAuthorization store for one identifier: the authorization's identifier
+    (wildcard prefix trimmed), its wildcard flag and the challenges created (those the provisioner
+    has enabled, `prov.IsChallengeEnabled`, an input) -/
+structure AuthzSpec where
+  typ : IdType
+  value : Str
+  wildcard : Bool
+  chals : List ChalType
+  deriving Repr, DecidableEq
+
+def newAuthorization (enabled : List ChalType) (id : Identifier) : AuthzSpec :=
+  { typ := id.typ, value := trimIfWildcard id.value, wildcard := isWildcard id.value,
+    chals := (challengeTypes id.typ (isWildcard id.value)).filter (enabled.contains ·) }
+
+/-- api.NewOrder after Validate and the policy checks: `o.AuthorizationIDs[i]` is a new
+    authorization made from `o.Identifiers[i]`; position in the list = authorization created -/
+def newOrderAuthzs (enabled : List ChalType) (ids : List Identifier) : List AuthzSpec :=
+  ids.map (newAuthorization enabled)
+
+/-- does a stored authorization back this order identifier? (type, name up to ASCII case, and
+    the wildcard flag — a wildcard name needs its own authorization, restricted to dns-01) -/
+def backs (a : AuthzSpec) (id : Identifier) : Bool :=
+  a.typ == id.typ && a.wildcard == isWildcard id.value &&
+  Str.lower a.value == Str.lower (trimIfWildcard id.value)
 
 end Verif.AcmeSans
